@@ -135,6 +135,9 @@ def env_partial(r):
     return m
 
 
+LAST_READ = []
+
+
 def step(r, W, maps, mems):
     """perform one random operation on the workspace; returns (opname, new objects)"""
     def pick(size=None):
@@ -192,6 +195,8 @@ def step(r, W, maps, mems):
     if k < 0.90:
         m = r.choice(maps)
         n, w = r.choice(REGS)
+        if LAST_READ and r.random() < 0.6:
+            m, n, w = maps[LAST_READ[0]], LAST_READ[1], LAST_READ[2]
         lo = r.randrange(0, w)
         hi = r.randrange(lo + 1, w + 1)
         x = pick(hi - lo)
@@ -199,6 +204,14 @@ def step(r, W, maps, mems):
             return "noop", []
         m[reg(n, w)[lo:hi]] = x
         return "map-store-slice", []
+    if k < 0.915:
+        # read a whole register (the next sub-register store is steered to the same map and register:
+        # the object read here must not change then)
+        mi = r.randrange(len(maps))
+        n, w = r.choice(REGS[:2])
+        got = maps[mi][reg(n, w)] if r.random() < 0.5 else maps[mi](reg(n, w))
+        LAST_READ[:] = [mi, n, w]
+        return "map-read-whole-register", [got]
     if k < 0.93:
         m = r.choice(maps)
         x = pick()
@@ -207,11 +220,19 @@ def step(r, W, maps, mems):
         m = r.choice(maps)
         n, w = r.choice(REGS)
         return "map-getitem", [m[reg(n, w)]]
-    if k < 0.98:
+    if k < 0.965:
         mm = merge(maps[0], maps[1])
         return "merge", [v for _, v in mm if hasattr(v, "size")][:2]
-    mems[0].write(0x1000 + 4 * r.randrange(8), pick(32) or cst(0, 32))
-    return "mem-write", []
+    if r.random() < 0.5:
+        mems[0].write(0x1000 + 4 * r.randrange(8), pick(32) or cst(0, 32))
+        return "mem-write", []
+    # a store through a symbolic pointer (two possible bases)
+    m = r.choice(maps)
+    n, w = r.choice(REGS[:2])
+    sz = r.choice([8, 16, 32])
+    x = pick(sz) or cst(r.getrandbits(sz), sz)
+    m[mem(reg(n, w), sz, disp=r.choice([0, 2, 4]))] = x
+    return "map-store-mem", []
 
 
 def pickle_ok(o):
@@ -230,6 +251,16 @@ def pickle_ok(o):
                 return "eq"
             if values(p) != values(o):
                 return "value"
+        if isinstance(o, mapper):
+            # the restored map must answer reads like the original: registers and memory through each base
+            for n, w in REGS:
+                if str(p[reg(n, w)]) != str(o[reg(n, w)]):
+                    return "read-" + n
+            for n, w in REGS[:2]:
+                for d in (0, 2, 4):
+                    q = mem(reg(n, w), 32, disp=d)
+                    if str(p[q]) != str(o[q]):
+                        return "read-mem"
     except Exception as ex:
         return "raises-" + type(ex).__name__
     return None
@@ -242,7 +273,10 @@ def main(tier):
     broken = ck.build_and_audit(["Amoco.Props.C13", "amoco_driver"])
     nhist = 120 if quick else 4000
     hlen = 40 if quick else 60
+    saved_noalias = conf.Cas.noaliasing
     for h in range(nhist):
+        conf.Cas.noaliasing = (h % 2 == 0)
+        ck.count("history.noaliasing=%s" % conf.Cas.noaliasing)
         W = [new_leaf(r) for _ in range(3)]
         maps = [mapper(), mapper()]
         mems = [MemoryMap()]
@@ -287,6 +321,7 @@ def main(tier):
                           "oracle", "pickle round-trip (no theorem: CPython pickle)", case={"object": str(o)[:300], "kind": kind(o)})
         if h == 0:
             ck.sample({"history": trace[:20], "workspace": [str(x)[:40] for x in W[:8]]})
+    conf.Cas.noaliasing = saved_noalias
     for b in broken:
         ck.report("C13:proof-obligation", "proof obligation broken: %s" % b[:300], "proof-obligation", b[:2000], failing_input_found=False)
     ck.assumptions += ["workspace expressions use sign-agnostic operators only, so the denotation does not depend on sf annotations",
